@@ -381,7 +381,9 @@ func (w *World) sync() {
 	}
 	w.groups = append(w.groups, w.cur)
 	w.cur = nil
-	connProgress(w.Script())
+	if len(w.groups)%16 == 1 { // what the child was doing, should it die (cheap: not on every event)
+		connProgress(w.Script())
+	}
 	w.snaps = append(w.snaps, w.snapTerm())
 }
 
